@@ -197,6 +197,90 @@ theorem trace_rnum_is_its_token (s : Str) (t : TState) (ht : trace? s = some t) 
     · rw [← erase_readL, writtenJoins_erase, List.getElem?_map, hp]; rfl
     · rw [← ha, ← hb, ← hxa, ← hye, hx.eq_drop, hys.eq_drop]; exact hr
 
+/-- THE LAST CLAUSE OF THE PROPERTY — a build error can be shown at the right place.  If building what was read fails with
+    `Rnum(i)` (an unmatched ring-closure digit, C10), then entry `i` of the trace's ring-closure table exists, is a
+    non-empty range inside the string, and the token there reads as a ring number that the string carries an odd number
+    of times: the digit the error is about. -/
+theorem rnum_error_points_at_its_token (s : Str) (t : TState) (ht : trace? s = some t) (i : Nat)
+    (hb : build? (read s).1 = some (.error (.rnum i))) :
+    ∃ a b r, t.rnum i = some (a, b) ∧ a < b ∧ b ≤ s.length ∧ readRnum (s.drop a) = .ok r (s.drop b) ∧
+      countR (read s).1 r % 2 = 1 := by
+  obtain ⟨bk, r, h1, _, h3⟩ := C10.build_rnum_error_is_real _ i hb
+  have ht0 := ht
+  unfold trace? at ht
+  obtain ⟨_, hrt⟩ := trun_atoms s.length _ _ _ ht
+  simp only [TState.init, List.nil_append] at hrt
+  rw [← erase_readL, writtenJoins_erase, List.getElem?_map] at h1
+  cases hp : (joinToks (readL s).1)[i]? with
+  | none => rw [hp] at h1; cases h1
+  | some p =>
+    have hk : t.rnum i = some (s.length - p.2.2.2.1, s.length - p.2.2.2.2) := by
+      unfold TState.rnum
+      rw [hrt, rnumSpans_eq, List.getElem?_map, hp]; rfl
+    obtain ⟨hab, hbs, _⟩ := trace_rnum_is_token s t ht0 i _ _ hk
+    obtain ⟨bk', r', h1', hr'⟩ := trace_rnum_is_its_token s t ht0 i _ _ hk
+    rw [← erase_readL, writtenJoins_erase, List.getElem?_map] at h1'
+    rw [h1'] at h1
+    simp only [Option.some.injEq, Prod.mk.injEq] at h1
+    obtain ⟨_, rfl⟩ := h1
+    exact ⟨_, _, r', hk, hab, hbs, hr', h3⟩
+
+theorem replay_count : ∀ (es : List Event) (st : List Nat) (n : Nat), (Spec.replay st n es).2 = n + (writtenAtoms es).length
+  | [], _, _ => by simp [Spec.replay, writtenAtoms]
+  | .root _ :: es, st, n => by simp only [Spec.replay, writtenAtoms, List.length_cons]; rw [replay_count es]; omega
+  | .extend _ _ :: es, st, n => by simp only [Spec.replay, writtenAtoms, List.length_cons]; rw [replay_count es]; omega
+  | .pop _ :: es, st, n => by simp only [Spec.replay, writtenAtoms]; rw [replay_count es]
+  | .join _ _ :: es, st, n => by simp only [Spec.replay, writtenAtoms]; rw [replay_count es]
+
+/-- … and if it fails with `Join(a, c)` (a ring closure that cannot be made, C10), both atoms have an entry in the
+    trace's atom table, each the exact range of an atom token of the string -/
+theorem join_error_points_at_its_atoms (s : Str) (t : TState) (ht : trace? s = some t) (a c : Nat)
+    (hb : build? (read s).1 = some (.error (.join a c))) :
+    ∃ a1 a2 c1 c2, t.atom a = some (a1, a2) ∧ t.atom c = some (c1, c2) ∧
+      a1 < a2 ∧ a2 ≤ s.length ∧ c1 < c2 ∧ c2 ≤ s.length ∧
+      (∃ k, readAtom (s.drop a1) = .ok k (s.drop a2)) ∧ (∃ k, readAtom (s.drop c1) = .ok k (s.drop c2)) := by
+  obtain ⟨pre, bk, r, post, s1, hsplit, hpre, herr, hdef⟩ := C10.build_join_error_is_real _ a c hb
+  have hinv : DInv pre s1 := by simpa using DInv.run pre DInv.init hpre herr
+  obtain ⟨hhead, _, tnode, _, hg, _, _⟩ := hdef
+  have hmem : a ∈ s1.stack := by
+    cases hst : s1.stack with
+    | nil => rw [hst] at hhead; cases hhead
+    | cons x xs => rw [hst] at hhead; simp at hhead; subst hhead; simp
+  have ha : a < s1.graph.length := hinv.stlt a hmem
+  have hc : c < s1.graph.length := by
+    apply Nat.lt_of_not_le; intro hge
+    rw [List.getElem?_eq_none_iff.mpr hge] at hg; cases hg
+  have hlen : s1.graph.length ≤ (writtenAtoms (read s).1).length := by
+    rw [hinv.len, replay_count, hsplit]
+    have h2 := replay_count (pre ++ Event.join bk r :: post) [] 0
+    rw [replay_append, replay_count, replay_count] at h2
+    omega
+  obtain ⟨hcount, _⟩ := trace_atom_count s t ht
+  have htl : t.atoms.length = (writtenAtoms (read s).1).length := by
+    rw [hcount, atomSpans_eq, List.length_map, ← erase_readL, writtenAtoms_erase, List.length_map]
+  have hsa : ∃ p, t.atom a = some p := by
+    unfold TState.atom
+    exact ⟨t.atoms[a]'(by omega), List.getElem?_eq_getElem (by omega)⟩
+  have hsc : ∃ p, t.atom c = some p := by
+    unfold TState.atom
+    exact ⟨t.atoms[c]'(by omega), List.getElem?_eq_getElem (by omega)⟩
+  obtain ⟨⟨a1, a2⟩, hpa⟩ := hsa
+  obtain ⟨⟨c1, c2⟩, hpc⟩ := hsc
+  obtain ⟨h1, h2, h3⟩ := trace_atom_is_token s t ht a a1 a2 hpa
+  obtain ⟨h4, h5, h6⟩ := trace_atom_is_token s t ht c c1 c2 hpc
+  exact ⟨a1, a2, c1, c2, hpa, hpc, h1, h2, h4, h5, h3, h6⟩
+
+/-! non-vacuity of the two theorems above: the text the writer gives for `C1` (an unmatched digit) and for `C11` (a
+    self-bond) is accepted, traced, and fails to build with `Rnum(0)` and `Join(0, 0)` -/
+example : ∃ s t, trace? s = some t ∧ build? (read s).1 = some (.error (.rnum 0)) := by
+  obtain ⟨txt, _, hr⟩ := C09.read_write [.root (.aliphatic .C), .join .elided ⟨1, by decide⟩] ⟨1, rfl⟩
+  obtain ⟨t, ht⟩ := Option.isSome_iff_exists.mp (trace_no_panic txt)
+  exact ⟨txt, t, ht, by rw [hr]; rfl⟩
+example : ∃ s t, trace? s = some t ∧ build? (read s).1 = some (.error (.join 0 0)) := by
+  obtain ⟨txt, _, hr⟩ := C09.read_write [.root (.aliphatic .C), .join .elided ⟨1, by decide⟩, .join .elided ⟨1, by decide⟩] ⟨1, rfl⟩
+  obtain ⟨t, ht⟩ := Option.isSome_iff_exists.mp (trace_no_panic txt)
+  exact ⟨txt, t, ht, by rw [hr]; rfl⟩
+
 /-- every bond cursor is the position of a bond token: `s.drop c` begins with the bond symbol of kind `b` when one
     is written (`readBond` consumes it) or, when the bond is elided (`readBond` consumes nothing), directly with
     the target atom or ring-closure token -/
